@@ -143,6 +143,11 @@ def inject(draw, spec, label, used, uid, extra=None):
         f = draw(st.sampled_from(types[n]["fields"]))
         f.setdefault("args", [])
         f["args"] += [{"name": "dup%d" % uid, "type": "Int"}, {"name": "dup%d" % uid, "type": "Int"}]
+        objs_ = [o for o in spec["order"] if types[o]["kind"] == "object"]
+        if objs_ and draw(st.booleans()):
+            # ... and the duplicate is of an output type too: both violations of that one argument have to be reported
+            f["args"][-1]["type"] = objs_[0]
+            extra.append(("output-type-in-input-position/on-duplicated-argument", 'Expected input type for argument "dup%d"' % uid, None))
         return "dup%d" % uid, {}
     if label == "duplicate-input-field":
         n = pick(("input",))
